@@ -111,6 +111,26 @@ CHECKS = {
          "Generated-input search over all five ParseError variants with small location/token/error domains and expected lists of 0..6 strings; every helper is compared with an independently written reference (map_* field-wise incl. call multiset, composition/commutation laws, Display, From). 2e4 cases quick, 1e6 thorough, proptest shrinking.",
          "Trusts the reference formatter written from the doc comments; explores values, not all types L/T/E.",
          "DESIGN.md section 3, C28"),
+ "C18": ("exploration",
+         "property-based generation (proptest byte tapes -> template grammars damaged by a catalogue of ~80 mistakes) + mutation fuzzing (token-level mutants of the repository's .lalrpop files, dictionary-biased raw bytes) against a process-level oracle (real CLI: exit 0 + header lines with recomputed sha3, or exit 1 + diagnostic and no output; never panic / signal / other status / watchdog)",
+         "Generated-input search: 3 000 near-valid grammars + 1 600 corpus mutants + 400 byte strings per quick run (120 000 + 70 000 + 10 000 thorough), each in its own lalrpop process under a 1 GiB address-space limit and a 60 s watchdog (re-run with 180 s twice before a hang is reported); every new failure signature (panic file + normalised message, abort kind, exit-status mismatch) is minimised by parallel token-level delta debugging and stored as a self-contained replay.",
+         "Does not explore nesting deeper than 64 or grammars whose LR(1) construction takes minutes (many precedence levels / deeply nested repetitions are capped); a hang is only reported after three watchdog hits.",
+         "DESIGN.md section 3, C18"),
+ "C20": ("exploration",
+         "differential / metamorphic testing over independent processes: the same grammar text through the CLI alone, the CLI with several inputs in random order, and Configuration::process_dir over random directory compositions and file names, with byte-equality oracle on .rs and .report",
+         "Generated-input search over every repository grammar LALRPOP accepts (incl. lrgrammar.lalrpop, pascal.lalrpop) + 120 (2 500 thorough) template grammars heavy in macros / inferred types; 8 (16) processes per grammar with fresh hash seeds, half with --comments, half with --report; all outputs of one text under one --comments setting must be byte-identical, all reports too.",
+         "Hash seeds cannot be forced (std RandomState); relies on fresh per-process keys. Every process uses the same feature set.",
+         "DESIGN.md section 3, C20"),
+ "C24": ("exploration",
+         "metamorphic testing: all 8 combinations of --comments / --no-whitespace / --report vs the default output, oracle = equality of the Rust token streams produced by proc_macro2's lexer (comments and whitespace dropped)",
+         "Generated-input search over every repository grammar LALRPOP accepts + 160 (4 000 thorough) template grammars (precedence, macros, inline, spans, recovery, generic types, cfg, extern/match lexers, LALR and recursive-ascent attributes); 7 non-default option combinations each; failing cases are minimised by token-level delta debugging.",
+         "Token-stream equality only; the generated code is not compiled and run in this check. lrgrammar/pascal only in the thorough tier.",
+         "DESIGN.md section 3, C24"),
+ "C26": ("exploration",
+         "metamorphic testing (layout perturbation of grammar token lists: whitespace, line comments, nested block comments, gluing) + property-based generation of embedded Rust snippets, oracle = proc_macro2 token streams of the generated file / of fn __action<n> bodies, return types, use items and module attributes",
+         "Generated-input search: (a) every repository grammar + 100 (2 500) template grammars re-laid-out 4 (7) times each from the harness's own token splitter; (b) 1 500 (40 000) grammars whose action code / use items / #![..] attributes / type annotation come from a snippet generator (nested delimiters; string, raw string, byte string and char literals holding delimiters and quotes; lifetimes, labels, comments holding delimiters).",
+         "Adjacency of an identifier and a following `<` is kept as written (macro names are defined by adjacency); inserted comments avoid `__`, `<>`, doc-comment forms and, next to code blocks, double quotes; snippets have no top-level `,`/`;`. Values computed by the actions are not executed.",
+         "DESIGN.md section 3, C26"),
 }
 
 NOT_APPLICABLE = {}
